@@ -140,28 +140,35 @@ func (app *Application) disburseFeesVQ(
 
 	// Compute the portion associated with each eligible validator's share of the fees, and within that, how much goes
 	// to the voter and how much goes to the next proposer.
-	perValidator := lastBlockFees.Clone()
 	var nEVQ quantity.Quantity
 	if err = nEVQ.FromInt64(int64(numEligibleValidators)); err != nil {
 		return fmt.Errorf("import numEligibleValidators %d: %w", numEligibleValidators, err)
-	}
-	if err = perValidator.Quo(&nEVQ); err != nil {
-		return fmt.Errorf("divide perValidator: %w", err)
 	}
 	denom := consensusParameters.FeeSplitWeightVote.Clone()
 	if err = denom.Add(&consensusParameters.FeeSplitWeightNextPropose); err != nil {
 		return fmt.Errorf("add FeeSplitWeightNextPropose: %w", err)
 	}
-	shareNextProposer := perValidator.Clone()
-	if err = shareNextProposer.Mul(&consensusParameters.FeeSplitWeightNextPropose); err != nil {
-		return fmt.Errorf("multiply shareNextProposer: %w", err)
-	}
-	if err = shareNextProposer.Quo(denom); err != nil {
-		return fmt.Errorf("divide shareNextProposer: %w", err)
-	}
-	shareVote := perValidator.Clone()
-	if err = shareVote.Sub(shareNextProposer); err != nil {
-		return fmt.Errorf("subtract shareVote: %w", err)
+	shareNextProposer := quantity.NewQuantity()
+	shareVote := quantity.NewQuantity()
+	// Without eligible validators (e.g. the first block after a genesis that carries fees) or with both
+	// the vote and the next proposer weight at zero (the weights can change while fees are persisted),
+	// nobody has a claim to the persisted fees and all of them go to the common pool below.
+	if !nEVQ.IsZero() && !denom.IsZero() {
+		perValidator := lastBlockFees.Clone()
+		if err = perValidator.Quo(&nEVQ); err != nil {
+			return fmt.Errorf("divide perValidator: %w", err)
+		}
+		shareNextProposer = perValidator.Clone()
+		if err = shareNextProposer.Mul(&consensusParameters.FeeSplitWeightNextPropose); err != nil {
+			return fmt.Errorf("multiply shareNextProposer: %w", err)
+		}
+		if err = shareNextProposer.Quo(denom); err != nil {
+			return fmt.Errorf("divide shareNextProposer: %w", err)
+		}
+		shareVote = perValidator.Clone()
+		if err = shareVote.Sub(shareNextProposer); err != nil {
+			return fmt.Errorf("subtract shareVote: %w", err)
+		}
 	}
 
 	// Multiply to get the next proposer's total payment.
